@@ -1516,4 +1516,62 @@ theorem locate_sound_example :
       (Reaches.seqOf (xs := [.int 3, .int 9]) rfl rfl (Reaches.here _ _)))
 
 
+
+/-! ### class names typedpy itself produces are in `[\w.]+` -/
+
+theorem all_alnum_fieldChars (W : Word) (hW : W.Sound) (t : Text) (h : t.all Char.isAlphanum = true) :
+    t.all (isFieldChar W) = true := by
+  induction t with
+  | nil => rfl
+  | cons c cs ih =>
+    simp only [List.all_cons, Bool.and_eq_true] at h ⊢
+    exact ⟨isFieldChar_ascii W hW c h.1, ih h.2⟩
+
+theorem derive_pre_alnum (d : Derive) : d.pre.all Char.isAlphanum = true ∧ d.pre ≠ [] := by
+  cases d <;> exact ⟨by decide, by decide⟩
+
+/-- the names typedpy gives the classes it derives (`Partial[Foo]` → `PartialFoo`, `AllFieldsRequired`,
+    `Extend`, `Omit`, `Pick`) from a class whose name is in `[\w.]+` are in `[\w.]+`; with an explicit
+    name, exactly when that name is -/
+theorem derived_name_identOk (W : Word) (hW : W.Sound) (d : Derive) (explicit : Option Text) (base : Text)
+    (hb : identOk W base = true) (he : ∀ n, explicit = some n → identOk W n = true) :
+    identOk W (derivedName d explicit base) = true := by
+  cases explicit with
+  | some n => exact he n rfl
+  | none =>
+    simp only [derivedName]
+    obtain ⟨_, hba⟩ := (identOk_iff W base).1 hb
+    obtain ⟨hpa, hpn⟩ := derive_pre_alnum d
+    rw [identOk_iff]
+    refine ⟨?_, ?_⟩
+    · cases hp : d.pre with
+      | nil => exact absurd hp hpn
+      | cons c cs => simp
+    · simp only [List.all_append, all_alnum_fieldChars W hW d.pre hpa, hba, Bool.and_true]
+
+/-- … so every rejection by a class derived (without explicit name) from a word-named class with
+    word-named fields keeps its field, in both modes (C18 for `Partial[Foo]`, `AllFieldsRequired[Foo]`,
+    `Extend[Foo]`, `Omit[Foo, …]`, `Pick[Foo, …]`) -/
+theorem derived_class_statement (O : Oracles) (T : Texts) (J : Codec) (ff : Bool) (c : ClassOpts)
+    (d : Derive) (base : Text)
+    (fields : List (String × FieldDecl)) (kw : List (String × PyVal))
+    (hW : J.word.Sound) (hJ : ff = false → J.RoundTrip) (hT : TextsWellFormed T)
+    (hname : c.name.toList = derivedName d none base) (hb : identOk J.word base = true)
+    (hn : ∀ nf ∈ fields, identOk J.word nf.1.toList = true) :
+    Reported O T J ff c fields kw :=
+  statement_partial O T J ff c fields kw hW hJ hT
+    (hname ▸ derived_name_identOk J.word hW d none base hb (fun _ h => nomatch h)) hn
+
+/-- a derived class named after the EXPRESSION that creates it (`Partial[Person]`, as a seeded change
+    did) loses every field: `[` is outside `[\w.]` -/
+theorem bracket_class_name_loses_field :
+    (parseMsg asciiWord "Partial[Person].age: Got -1; Expected a positive number".toList).field = none ∧
+    (parseMsg asciiWord "PartialPerson.age: Got -1; Expected a positive number".toList).field
+      = some "PartialPerson.age".toList ∧
+    derivedName .partialOf none "Person".toList = "PartialPerson".toList ∧
+    derivedName .allRequired none "Person".toList = "AllFieldsRequiredPerson".toList ∧
+    derivedName .omit (some "Slim".toList) "Person".toList = "Slim".toList := by
+  decide
+
+
 end Typedpy.C18
